@@ -856,8 +856,22 @@ class ExecS(Exec):
             bind(b_)
         self.cx.covers.append((f"loop{no}.body", list(b_.pc)))
         new_names = {}
+
+        def shapes(v, depth=0):
+            """lengths of the Python lists inside a value (a havocked list keeps its length: the body must keep it too)"""
+            if isinstance(v, ListV):
+                return ("L", len(v.items), tuple(shapes(x, depth + 1) for _, x in v.items))
+            if isinstance(v, Opt):
+                return shapes(v.val, depth + 1)
+            if isinstance(v, ObjV) and depth < 4:
+                return tuple((k_, shapes(x, depth + 1)) for k_, x in sorted(v.fields.items()) if isinstance(x, (ListV, ObjV, Opt)))
+            return None
+        head_shapes = {v_: shapes(h.env[v_]) for v_ in mod if v_ in h.env}
         for o in self.ex_block(s.body, b_):
             if o.kind in ("normal", "continue"):
+                for v_, sh in head_shapes.items():
+                    if sh is not None and v_ in o.st.env and shapes(o.st.env[v_]) != sh:
+                        raise Unsupported(f"the loop body changes the length of a list inside `{v_}` (loop {no})")
                 for k_, v_ in o.st.env.items():
                     if k_ not in h.env and not k_.startswith(("$", "__")) and k_ not in new_names:
                         new_names[k_] = v_
